@@ -22,10 +22,15 @@ N = 3
 CTORS = ["makeField", "Field", "from_raw_anyarray", "multifield", "sum", "scaled", "makeField_2d"]
 
 
+class _Sub(np.ndarray):
+    """user-defined ndarray subclass (stands for np.matrix, masked arrays, memmaps, ...)"""
+
+
 def _arr(B, x, shape=None):
+    """the source array: an instance of an ndarray subclass in both back ends (the engine's SymArr / _Sub); what holds
+    for it holds for plain ndarrays, for which np.asarray & co. are the identity"""
     a = np.array(x, dtype=object if B.mode == "sym" else np.float64)
-    if B.mode == "sym":
-        a = a.view(sc.SymArr)
+    a = a.view(sc.SymArr) if B.mode == "sym" else a.view(_Sub)
     return a if shape is None else a.reshape(shape)
 
 
